@@ -201,6 +201,11 @@ Inductive iadd_kind :=
   | IAddSetters.          (* empty: self.array_3d = other / self.array = other (by operand type);
                              DataArray content: self.array_3d += other;  ndarray content: self.array += other *)
 
+(* ArrayBase.__iadd__ / __add__ on an initialised container *)
+Inductive base_iadd_kind :=
+  | BIInPlace             (* self.array += other          (in-place addition on the STORED array, then the setter) *)
+  | BIOnCopy.             (* new = self._array.copy(); new += other; self.array = new *)
+
 (* ArrayBase.__eq__ after the type-and-shape test *)
 Inductive eq_kind :=
   | EqLeftOnly            (* if self._array is not None: np.array_equal(self.array, other.array)   else True *)
@@ -233,6 +238,8 @@ Record tables := {
   det_setter : ckind -> setter_kind;
   ph_iadd : iadd_kind;                 (* Photon.__iadd__ *)
   ph_add : iadd_kind;                  (* Photon.__add__ *)
+  b_iadd : base_iadd_kind;             (* ArrayBase.__iadd__ *)
+  b_add : base_iadd_kind;              (* ArrayBase.__add__ *)
   base_eq : eq_kind;                   (* ArrayBase.__eq__ *)
   ph_eq_geom : bool;                   (* Photon.__eq__ compares (_num_rows, _num_cols) *)
   (* getters: `if <test>: raise E` guards before `return self._array` *)
@@ -378,21 +385,30 @@ Definition xr_iadd (cur a : arr) : option (arr + exc) :=
   | _, _ => None
   end.
 
+(* the result of `nd += a` as Python sees it: numpy adds in place into `nd` (a DataArray operand is taken by
+   position); with a DataArray operand the value of the expression is a DataArray (dims/coordinates of `a`)
+   wrapping the modified array *)
+Definition iadd_result (cur' a : arr) : arr :=
+  {| a_xr := a_xr a; a_shape := a_shape cur'; a_dt := a_dt cur'; a_data := a_data cur' |}.
+
 (* ArrayBase.__iadd__ / __add__ :
-     if self._array is not None: self.array += other      (getter, numpy in-place add, setter again)
+     if self._array is not None: self.array += other      (BIInPlace: getter, numpy in-place add on the stored
+                                                           object, setter on the value of the expression)
+                                  new = self._array.copy(); new += other; self.array = new      (BIOnCopy)
      else:                        self.array = other *)
-Definition base_iadd (c : container) (a : arr) : container * outcome :=
+Definition base_iadd (k : base_iadd_kind) (c : container) (a : arr) : container * outcome :=
   match c_content c with
   | None => base_set c a
   | Some cur =>
-      if is_xr a || is_xr cur then (c, Unmodelled)
-      else match np_iadd cur a with
+      if is_xr cur then (c, Unmodelled)
+      else match np_iadd cur (as_numpy a) with
            | inr e => (c, Raise e)
            | inl cur' =>
-               (* the in-place addition has happened; the setter validates the same object again *)
-               match validate_base c cur' with
-               | Some e => (with_content c (Some cur'), Raise e)
-               | None => (with_content c (Some cur'), Done)
+               match validate_base c (iadd_result cur' a) with
+               | Some e =>
+                   (* BIInPlace: the in-place addition has already happened on the stored object *)
+                   (match k with BIInPlace => with_content c (Some cur') | BIOnCopy => c end, Raise e)
+               | None => (with_content c (Some (iadd_result cur' a)), Done)
                end
            end
   end.
@@ -582,8 +598,8 @@ Definition step (c : container) (o : op) : container * outcome :=
                      | UpdNone => (with_content c None, Done)
                      end
            end
-  | OIAdd a => if is_photon (c_kind c) then photon_iadd (ph_iadd tb) c a else base_iadd c a
-  | OAdd a => if is_photon (c_kind c) then photon_iadd (ph_add tb) c a else base_iadd c a
+  | OIAdd a => if is_photon (c_kind c) then photon_iadd (ph_iadd tb) c a else base_iadd (b_iadd tb) c a
+  | OAdd a => if is_photon (c_kind c) then photon_iadd (ph_add tb) c a else base_iadd (b_add tb) c a
   | OEmpty => (do_empty c, Done)
   | ORead => (c, read2d c)
   | ORead3D => if is_photon (c_kind c) then (c, read3d c) else (c, Unmodelled)
@@ -716,6 +732,10 @@ Definition no_raw_setter (tb : tables) : bool :=
 Definition iadd_through_setters (tb : tables) : bool :=
   match ph_iadd tb, ph_add tb with IAddSetters, IAddSetters => true | _, _ => false end.
 
+(* ArrayBase += / + never touch the stored array before the result has been validated *)
+Definition base_iadd_on_copy (tb : tables) : bool :=
+  match b_iadd tb, b_add tb with BIOnCopy, BIOnCopy => true | _, _ => false end.
+
 (* == compares emptiness on both sides, and the geometry for photons too *)
 Definition eq_shape_ok (tb : tables) : bool :=
   match base_eq tb with EqBothNone => ph_eq_geom tb | EqLeftOnly => false end.
@@ -736,7 +756,7 @@ Definition resets_ok (tb : tables) : bool :=
 
 Definition tables_ok (tb : tables) : bool :=
   type_lists_ok tb && guards_ok tb && pixel_zeros_ok tb && no_raw_setter tb && iadd_through_setters tb
-  && eq_shape_ok tb && reads_guarded tb && resets_ok tb.
+  && eq_shape_ok tb && reads_guarded tb && resets_ok tb && base_iadd_on_copy tb.
 
 (* ------------------------------------------------------------------------------------------ case files
    One case = a bucket of a real detector, an operation list and what the implementation showed
